@@ -1,6 +1,7 @@
 import Driver.Loop
 import Driver.C01Mon
 import Driver.C02Mon
+import Driver.C12Mon
 open Kv
 
 /-- monitor-only driver: imports nothing generated, so it builds whatever the source looks like -/
@@ -8,6 +9,7 @@ def dispatchMon (prop : String) (l : Line) : String :=
   match prop with
   | "C01" => Drv.C01.stepMon l
   | "C02" => Drv.C02.stepMon l
+  | "C12" => Drv.C12.step l
   | _ => "bad-op"
 
 def main : IO Unit := driverMain dispatchMon
